@@ -295,6 +295,14 @@ func genVolumeHist(t *rapid.T, big bool) Hist {
 		// ... and more than 65536 records opened by the process
 		add(Op{K: "bystanders", S: a, N: 61000, Sess: 1})
 	}
+	// two sessions of one subscriber and consumer, opened while (with big) more than 65535 sessions are open and none
+	// has been closed since
+	add(Op{K: "create", S: d, Name: "smf"})
+	add(Op{K: "create", S: d, Name: "smf"})
+	add(Op{K: "update", S: d, Sess: 0, UUs: on(2, 10, 3)})
+	add(Op{K: "update", S: d, Sess: 1, UUs: on(2, 10, 4)})
+	add(Op{K: "release", S: d, Sess: 0})
+	add(Op{K: "release", S: d, Sess: 0})
 	// everybody is still served
 	add(Op{K: "update", S: a, UUs: on(1, 100, 40)})
 	add(Op{K: "update", S: b, Sess: 0, UUs: on(1, 100, 20)})
@@ -308,13 +316,6 @@ func genVolumeHist(t *rapid.T, big bool) Hist {
 	add(Op{K: "release", S: a, Trig: "FINAL", UUs: on(1, 0, 10)})
 	add(Op{K: "create", S: a, Name: "smf", UUs: []UU{{RG: 1, Req: 100}}})
 	add(Op{K: "update", S: a, UUs: on(1, 100, 40)})
-	// two sessions of one subscriber and consumer, opened while (with big) more than 65535 sessions are open
-	add(Op{K: "create", S: d, Name: "smf"})
-	add(Op{K: "create", S: d, Name: "smf"})
-	add(Op{K: "update", S: d, Sess: 0, UUs: on(2, 10, 3)})
-	add(Op{K: "update", S: d, Sess: 1, UUs: on(2, 10, 4)})
-	add(Op{K: "release", S: d, Sess: 0})
-	add(Op{K: "release", S: d, Sess: 0})
 	return hst
 }
 
